@@ -3,7 +3,7 @@
    calls and clock advances up to a bound (exhaustive, histories merged by VIEW) or long
    random walks (-simulate).  One module serves three purposes:
      * model checking of the properties X01.a-e on the model Gater.tla (invariants and
-       action properties below; configurations with Bug # "none", Patched = FALSE or
+       action properties below; configurations with BugC # "none", Patched = FALSE or
        Late = TRUE MUST fail);
      * scenario generation: Emit prints the history of every state at the length bound;
        only the inputs are emitted, what the real gater answers is judged by GaterTrace;
